@@ -5,6 +5,8 @@ package c10
 import (
 	"fmt"
 	"math"
+	"reflect"
+	"sort"
 	"strings"
 	"time"
 
@@ -372,6 +374,59 @@ func totality(r *engine.Rec) {
 			r.Violation("FormatValue output lacks the elision mark for a value deeper than its limit"+c.class, c.name+"\n"+text, cs)
 		default:
 			r.Outcome("terminates")
+		}
+	}
+	// Elision is a function of the nesting depth only: the text of an item does not depend on what was formatted
+	// before it. For a two-item list the text is the two items' blocks in order, so [X, Y] and [Y, X] must
+	// consist of the same lines.
+	lines := func(v any) ([]string, bool) {
+		text, fo := cdcnx.Format(v, 1000000)
+		if fo.Panicked {
+			return nil, false
+		}
+		ls := strings.Split(text, "\n")
+		sort.Strings(ls)
+		return ls, true
+	}
+	for i, x := range cases {
+		for j, y := range cases {
+			if i >= j {
+				continue
+			}
+			cs := rtCase{"elision-order", x.name + " | " + y.name}
+			if !r.Wanted(cs) {
+				continue
+			}
+			xy, ok1 := lines(mkKind("List", []any{x.build(), y.build()}))
+			yx, ok2 := lines(mkKind("List", []any{y.build(), x.build()}))
+			r.Evals += 2
+			n++
+			if ok1 && ok2 && !reflect.DeepEqual(xy, yx) {
+				r.Violation("the text of an item depends on what was formatted before it (elision spreads to siblings)", cs.Desc, cs)
+			}
+		}
+	}
+	// items just within the limit next to items beyond it
+	fits := func(depth int) any {
+		var v any = int64(5)
+		for i := 0; i < depth; i++ {
+			v = mkKind("List", []any{v, int64(i)})
+		}
+		return v
+	}
+	for da := 5; da <= 10; da++ {
+		for db := 5; db <= 10; db++ {
+			cs := rtCase{"elision-order", fmt.Sprintf("chains of depth %d and %d", da, db)}
+			if !r.Wanted(cs) {
+				continue
+			}
+			xy, ok1 := lines(mkKind("List", []any{fits(da), fits(db)}))
+			yx, ok2 := lines(mkKind("List", []any{fits(db), fits(da)}))
+			r.Evals += 2
+			n++
+			if ok1 && ok2 && !reflect.DeepEqual(xy, yx) {
+				r.Violation("the text of an item depends on what was formatted before it (elision spreads to siblings)", cs.Desc, cs)
+			}
 		}
 	}
 	r.States += int64(n)
